@@ -208,6 +208,10 @@ func checkC07(raw json.RawMessage) iso.Result {
 			col.FailKey(c07Key(c, env, "value"), "final value of %s: reference %s, falco %s\n--- program ---\n%s", name, want, g, c.Src)
 		}
 	}
+	if env.MixedNumeric > 0 {
+		col.Label("mixed-numeric-assignment")
+		col.Count("mixed-numeric-assignments", env.MixedNumeric)
+	}
 	if (env.ValueDependent >= 1 && env.Branches >= 1) || hasBigAclProbe(c) {
 		col.Res.NonTrivial = true
 	}
